@@ -772,7 +772,7 @@ def lean_bool(b):
     return 'true' if b else 'false'
 
 
-def render(stages, shape):
+def render(stages, shape, sites=()):
     lines = [
         '/-',
         '  GENERATED by harness/ctmverif/translate.py from the source tree of',
@@ -804,6 +804,11 @@ def render(stages, shape):
     lines.append('def stages : List Stage := [%s]' % ', '.join(
         st['name'] for st in stages))
     lines.append('')
+    lines.append('/-- every function in src/cell_type_mapper that creates a '
+                 '`multiprocessing.Process` -/')
+    lines.append('def processSites : List String := [')
+    lines.append(',\n'.join('  "%s"' % x for x in sites) + ']')
+    lines.append('')
     lines.append('/-- cli/from_specified_markers.py: run_mapping, _run_mapping; '
                  'utils/output_utils.py: blob_to_hdf5 -/')
     lines.append('def runMappingShape : MappingShape :=')
@@ -817,6 +822,29 @@ def render(stages, shape):
     return '\n'.join(lines) + '\n'
 
 
+def process_sites(repo):
+    """every function of the package that creates a multiprocessing.Process:
+    'relative/path.py:function' (sorted) - so that a new parallel stage cannot
+    appear without the obligation `generated_process_sites` noticing"""
+    root = pathlib.Path(repo) / PKG
+    sites = set()
+    for f in sorted(root.rglob('*.py')):
+        try:
+            mod = ast.parse(f.read_text())
+        except SyntaxError:
+            sites.add('%s:<unparseable>' % f.relative_to(root))
+            continue
+        for fn in ast.walk(mod):
+            if not isinstance(fn, (ast.FunctionDef, ast.AsyncFunctionDef)):
+                continue
+            for c in calls(fn):
+                d = dotted(c)
+                if d.endswith('Process') and ('multiprocessing' in d
+                                              or d == 'Process'):
+                    sites.add('%s:%s' % (f.relative_to(root), fn.name))
+    return sorted(sites)
+
+
 def extract_all(repo):
     _cache.clear()
     stages = [StageExtractor(repo, spec).extract() for spec in STAGES]
@@ -826,7 +854,7 @@ def extract_all(repo):
 def regenerate(repo, lean_dir):
     """returns (changed, stages, shape)"""
     stages, shape = extract_all(repo)
-    text = render(stages, shape)
+    text = render(stages, shape, process_sites(repo))
     path = pathlib.Path(lean_dir) / 'CTM' / 'Generated' / 'Skeleton.lean'
     old = path.read_text() if path.is_file() else None
     changed = old != text
@@ -840,4 +868,4 @@ if __name__ == '__main__':
     import sys
     repo = sys.argv[1] if len(sys.argv) > 1 else '/repo'
     stages, shape = extract_all(repo)
-    sys.stdout.write(render(stages, shape))
+    sys.stdout.write(render(stages, shape, process_sites(repo)))
